@@ -262,6 +262,10 @@ class Check:
         self.notes = {}
         self._distinct = set()
         self.known = [f for f in load_known_findings() if f["property"] == pid]
+        d = outdir(pid)   # replay files of earlier runs are stale: remove them
+        for f in os.listdir(d):
+            if f.startswith("violation-"):
+                os.unlink(os.path.join(d, f))
 
     def add_tlc(self, res, label):
         self.coverage["states"] += res.distinct if hasattr(res, "distinct") and res.distinct else res.states
